@@ -92,7 +92,7 @@ fn run_jobs(ctx: &mut Ctx, jobs: Vec<Job>, threads: usize) {
 }
 
 static LAYOUT: std::sync::OnceLock<JubLayout> = std::sync::OnceLock::new();
-fn layout() -> &'static JubLayout {
+pub(crate) fn layout() -> &'static JubLayout {
     LAYOUT.get_or_init(JubLayout::new)
 }
 
@@ -807,10 +807,13 @@ fn suite_jobs<S: Suite + 'static>(ctx: &Ctx, jobs: &mut Jobs, bud: &Budget, scal
         consts.extend(vec![
             ("2^64-1", pow2(64) - 1u8),
             ("2^64", pow2(64)),
+            ("2^64+1", pow2(64) + 1u8),
             ("2^64+5", pow2(64) + 5u8),
+            ("2^127", pow2(127)),
             ("2^127+1", pow2(127) + 1u8),
             ("2^128-1", pow2(128) - 1u8),
             ("2^128", pow2(128)),
+            ("2^128+1", pow2(128) + 1u8),
             ("2^200+12345", pow2(200) + 12345u32),
             ("8", b(8)),
         ]);
@@ -1069,6 +1072,35 @@ pub fn run(ctx: &mut Ctx) {
             jobs.v.push(Box::new(move || crate::coordsbind::case(&class, d)));
         }
     }
+    // map-to-curve / hash-to-curve on Jubjub: constants, exceptional inputs (computed from the
+    // running constants), CPU stages, the in-circuit gadget, hash glue
+    {
+        jobs.v.push(Box::new(crate::htc::consts_case));
+        let mut rng = ctx.rng("htc");
+        let mut classes = crate::htc::input_classes();
+        let nrand = match tier.as_str() { "quick" => 8, "thorough" => 80, _ => 40 };
+        for i in 0..nrand {
+            classes.push((format!("rand{i}"), <F as ff::Field>::random(&mut rng)));
+        }
+        for (class, u) in classes.iter() {
+            let (c1, u1) = (class.clone(), *u);
+            jobs.v.push(Box::new(move || crate::htc::cpu_case(&c1, u1)));
+            // single-cell faults over the advice cells of the gadget (all of them outside quick)
+            let tam = if ["exceptional0", "exceptional2", "rand0", "0"].contains(&class.as_str()) { if quick { 40 } else { 100_000 } } else { 0 };
+            let (c2, u2) = (class.clone(), *u);
+            let trng = ctx.rng(&format!("htc-tamper:{class}"));
+            jobs.v.push(Box::new(move || crate::htc::circuit_case(&c2, u2, tam, trng)));
+        }
+        let glue: Vec<(String, Vec<F>)> = vec![
+            ("one".into(), vec![<F as ff::Field>::ONE]),
+            ("empty".into(), vec![]),
+            ("rand3".into(), (0..3).map(|_| <F as ff::Field>::random(&mut rng)).collect()),
+        ];
+        for (i, (class, ins)) in glue.into_iter().enumerate() {
+            let circuit = i == 0 || !quick;
+            jobs.v.push(Box::new(move || crate::htc::glue_case(&class, ins, circuit)));
+        }
+    }
     tamper_jobs(ctx, &mut jobs, &jub_bud, &for_bud);
     let threads = std::env::var("H_C06_THREADS").ok().and_then(|s| s.parse().ok()).unwrap_or(8);
     ctx.count_n("jobs", jobs.v.len() as u64);
@@ -1088,6 +1120,37 @@ pub fn probe(args: &[String]) {
                 }
             }
         }
+        return;
+    }
+    if which == "htcfree" {
+        use ff::Field;
+        crate::htc::probe_free_cells(F::from(5u64));
+        crate::htc::probe_free_cells(crate::htc::exceptional()[2]);
+        crate::htc::probe_free_cells(F::ZERO);
+        return;
+    }
+    if which == "htc" {
+        use rand_core::SeedableRng;
+        let show = |out: Out| {
+            for e in out.ev {
+                match e {
+                    Event::Count(k, _) => println!("count {k}"),
+                    Event::Case(kind, line, ans) => println!("case {kind}\n  {line}\n  -> {}", ans.chars().take(400).collect::<String>()),
+                    Event::Fail(k, w, d) => println!("ORACLE_FAIL {k}: {w}\n  {d}"),
+                }
+            }
+        };
+        show(crate::htc::consts_case());
+        for (class, u) in crate::htc::input_classes() {
+            let t = std::time::Instant::now();
+            show(crate::htc::cpu_case(&class, u));
+            let tam = if class == "exceptional0" { 6 } else { 0 };
+            show(crate::htc::circuit_case(&class, u, tam, rand_chacha::ChaCha8Rng::seed_from_u64(1)));
+            println!("({:?})", t.elapsed());
+        }
+        let t = std::time::Instant::now();
+        show(crate::htc::glue_case("one", vec![<F as ff::Field>::ONE], true));
+        println!("({:?})", t.elapsed());
         return;
     }
     if which == "loworder" {
